@@ -73,7 +73,7 @@ def convert_pn(pn_str: str, expect_symmetric: bool = False) -> List[Places]:
     # We suppress the type error here, because mypy will assign the list comprehension type 'List[object]',
     # not 'List[Places]'.
     converted: List[Places] = [
-        [convert_bell_string(y) for y in place] if place != "-" else _CROSS_PN  # type: ignore
+        [convert_bell_string(y.upper()) for y in place] if place != "-" else _CROSS_PN  # type: ignore
         for place in deduplicated_string
     ]
 
